@@ -56,7 +56,7 @@ func main() {
 	}
 
 	// (a) round trip
-	perType := lib.Pick(1200, 120000)
+	perType := lib.Pick(1200, 15000)
 	for _, w0 := range wireTypes {
 		w := w0
 		n := perType
@@ -69,7 +69,7 @@ func main() {
 			}
 		})
 	}
-	perRLP := lib.Pick(3000, 300000)
+	perRLP := lib.Pick(3000, 40000)
 	lib.Parallel(perRLP/50, 16, func(blk int) {
 		for k := 0; k < 50; k++ {
 			for kind := 0; kind < rlpRTKinds; kind++ {
@@ -101,15 +101,15 @@ func main() {
 	}
 
 	for _, w := range wireTypes {
-		run.Require("rt_values_"+w.name, int64(lib.Pick(500, 50000)))
+		run.Require("rt_values_"+w.name, int64(lib.Pick(500, 7000)))
 	}
-	run.Require("rt_binary_values", int64(lib.Pick(20000, 2000000)))
-	run.Require("rt_json_values", int64(lib.Pick(15000, 1500000)))
-	run.Require("rt_rlp_values", int64(lib.Pick(20000, 2000000)))
+	run.Require("rt_binary_values", int64(lib.Pick(20000, 250000)))
+	run.Require("rt_json_values", int64(lib.Pick(15000, 200000)))
+	run.Require("rt_rlp_values", int64(lib.Pick(20000, 300000)))
 	run.Require("rt_binary_large_encodings", 100)
 	run.Require("rt_state_save_load", 100)
 	run.Require("rt_privval_save_load", 50)
-	run.Require("robust_inputs", int64(lib.Pick(1000000, 100000000)))
+	run.Require("robust_inputs", int64(lib.Pick(5000000, 100000000)))
 	run.Require("robust_errors", 100000)
 	run.Require("robust_values", 10000)
 	run.Require("robust_groups", int64(16*groupsPerChild()))
@@ -130,7 +130,7 @@ func main() {
 	run.Require("rlp_noncanonical:single-byte-as-string", 100)
 	run.Require("rlp_noncanonical:long-form-for-short", 100)
 	run.Require("signbytes_values_in_collision_table", 100000)
-	run.Require("signbytes_pairs_differing", int64(lib.Pick(30000, 1500000)))
+	run.Require("signbytes_pairs_differing", int64(lib.Pick(30000, 700000)))
 	run.Require("signbytes_pairs_equal_fields", 1000)
 	os.Exit(run.Finish())
 }
